@@ -149,7 +149,9 @@ def resolve_unwindset(harness, hout, workdir, pretty_map_file):
     entries, resolved = [], []
     for ent in harness.unwindset:
         rx, bound = ent[0], ent[1]
-        kind = ent[2] if len(ent) > 2 else "both"   # "rec": recursion bound only; "loops": loops only; "both"
+        kind = ent[2] if len(ent) > 2 else "both"   # "rec": recursion bound only; "loops": loops only; "both"; trailing "?" = optional
+        optional = kind.endswith("?")
+        kind = kind.rstrip("?")
         r = re.compile(rx)
         hit = False
         for mangled in funcs:
@@ -165,7 +167,7 @@ def resolve_unwindset(harness, hout, workdir, pretty_map_file):
                     if lp.rsplit(".", 1)[0] == mangled:
                         entries.append("%s:%d" % (lp, bound))
             resolved.append((pretty, bound))
-        if not hit:
+        if not hit and not optional:
             resolved.append(("<no function matches /%s/>" % rx, bound))
     return entries, resolved
 
@@ -267,6 +269,10 @@ def run_one(ov, meta, harness, workroot):
     if not res or "** Results:" not in text:
         r["outcome"] = "oom" if ("std::bad_alloc" in text or "Out of memory" in text or "out of memory" in text or rc in (-6, -9, 134, 137)) else "error"
         r["error"] = text[-600:]
+        return r
+    if any(x["status"] == "ERROR" for x in res) or "Solver ran out of memory" in text or "Out of memory" in text:
+        r["outcome"] = "oom"
+        r["error"] = "CBMC reported ERROR status / solver out of memory"
         return r
     covers = {}
     failed, unwind_failed = [], []
